@@ -94,6 +94,7 @@ def main():
             shutil.rmtree(wt, ignore_errors=True)
         # the checks regenerate parts of the Lean model from the tree under test: put back /repo's own versions
         sh(f"/venv/bin/python {VERIF}/harness/translate/formulas.py /repo {VERIF}/lean/PyribsGen/Formulas.lean")
+        sh(f"/venv/bin/python {VERIF}/harness/translate/control.py /repo {VERIF}/lean/PyribsGen/Control.lean")
         if "C09" in checks:
             # C09 regenerates lean/PyribsGen/RngSites.lean from the tree under test: put back /repo's own table
             sh(f"/venv/bin/python -c \"import sys; sys.path.insert(0, '{VERIF}/harness'); "
